@@ -27,7 +27,7 @@ VALS = [A('a'), A('b'), A('c'), I(1), I(2)]
 
 def plan(tier, seed):
     if tier == 'quick':
-        return {'n': 40000, 'deadline': 50,
+        return {'n': 40000, 'deadline': 150,
                 'floor': {'distinct_nontrivial': 6000, 'mods_while_suspended': 30000, 'api_histories': 8000,
                           'compiled_histories': 6000, 'retract_enumerations': 6000, 'query_enumerations': 6000}}
     return {'n': 120000 + exh_count(), 'deadline': 540, 'exh': exh_count(),
